@@ -13,6 +13,8 @@ MUTATORS = {"makedir", "makedirs", "create", "touch", "writebytes", "appendbytes
             "removetree", "copy", "move", "setinfo"}
 
 
+FIXED_SIGNATURE = {"position-beyond-eof-clamped"}   # finding classes identified by their kind alone
+
 IO_OPS = {"open", "seek", "tell", "read", "readinto", "write", "truncate", "close"}
 
 
@@ -147,6 +149,18 @@ def check_history(cfg, ops, remount_every=1, want=None, stop_on_first=False, io_
                 stats["rejected"] = stats.get("rejected", 0) + 1
                 continue
             exp = run_op(w.ref, op, w.rhandles)
+            if got != exp and op[0] in ("tell", "seek") and got[0] == "ok" and exp[0] == "ok" and op[1] in w.rhandles:
+                # a position beyond end-of-file (left there by a shrinking truncate) is not representable in
+                # FatIO: seek()/tell() clamp it to the size.  One root cause, one finding class.
+                try:
+                    rh = w.rhandles[op[1]]
+                    rsize = w.ref.getsize(rh.name)
+                    if exp[1] > rsize and got[1] == rsize:
+                        add(["C02"], "position-beyond-eof-clamped", "%s: got %s, a byte buffer reports %s (size %d)" % (opkind(op), got[1], exp[1], rsize), i)
+                        rh.pos = got[1]
+                        continue
+                except Exception:  # noqa
+                    pass
             if got != exp:
                 pr = ["C02"] if op[0] in IO_OPS else ["C01"]
                 if got[0] == "err" and not is_sanctioned(got[1]):
@@ -290,6 +304,10 @@ def report(res, cfg, ops, findings, suite, shrink_budget=60, seen=None):
     for f in findings:
         by_kind.setdefault(f.kind, f)
     for kind, f in by_kind.items():
+        if kind in FIXED_SIGNATURE:
+            res.fail(f.props, "%s:%s" % (suite, kind), "%s — %s" % (kind, f.detail[:300]),
+                     {"suite": suite, "cfg": cfg, "ops": ops[:f.step + 1], "kind": kind})
+            continue
         if seen is not None and seen.get(kind, 0) >= 2:
             # already have shrunk exemplars of this kind in this run: signature from the unshrunk step
             small = ops[:f.step + 1]
